@@ -220,6 +220,15 @@ def fill_idiom(facts, fn, sr, call, op, slots, res, R="C02.3.array-fill"):
             res.violation(R, f, fnq, key, call["l"][1], "position array '%s' is filled through an unrecognised index form %s" % (s["name"], sorted(idx_kinds)))
 
 
+def is_increment(st, did):
+    """`n += k` (k a positive literal), `++n` or `n++` as a statement"""
+    st = strip(st)
+    k = st.get("k")
+    if k == "CompoundAssignOperator" and st.get("op") == "+=" and strip(kids(st)[0]).get("did") == did:
+        return True
+    return k == "UnaryOperator" and st.get("op") == "++" and strip(kids(st)[0]).get("did") == did
+
+
 def non_empty(facts, fn, sr, call, op, slots, res, R="C02.3.non-empty"):
     """wrapper kernel calls with a (vector, count) source list are dominated by count > 0"""
     roles = ROLES[op]
@@ -240,12 +249,12 @@ def non_empty(facts, fn, sr, call, op, slots, res, R="C02.3.non-empty"):
             pos = [i for i, x in enumerate(sibs) if x is cur][0]
             for sib in reversed(sibs[:pos]):
                 k = sib.get("k")
-                if k == "CompoundAssignOperator" and strip(kids(sib)[0]).get("did") == ndid and sib.get("op") == "+=":
+                if is_increment(sib, ndid):
                     ok, how = True, "count incremented unconditionally at line %d before the call" % sib["l"][1]
                     break
                 if k == "DoStmt":
                     body = sib["c"][0]
-                    if any(x.get("k") == "CompoundAssignOperator" and strip(kids(x)[0]).get("did") == ndid and x.get("_p") is body for x in kids(body)):
+                    if any(is_increment(x, ndid) and x.get("_p") is body for x in kids(body)):
                         ok, how = True, "do-while body at line %d increments the count at least once" % sib["l"][1]
                         break
                 if (k == "BinaryOperator" and sib.get("op") == "=" and strip(kids(sib)[0]).get("did") == ndid) or \
